@@ -181,7 +181,7 @@ Bit(b) == IF b THEN 1 ELSE 0
 Case ==
   CASE mode = "inseg" ->
          LET x == InsegImage(obj) IN
-         [mode |-> mode, chunks |-> Chunks(x.im), nsec |-> NSecGeom, nseg |-> 4,
+         [mode |-> mode, chunks |-> Chunks(x.im), nsec |-> NSecGeom, nseg |-> 4, fs |-> obj.fs, t |-> obj.t,
           \* expected matrix, row per segment, "2" = outside the named clause groups (not asserted)
           expect |-> TLCEval([j \in 1..4 |-> TLCEval([k \in 1..NSecGeom |->
                         IF ~InDomain(SecAtO(obj, k), SegAt(obj, j)) THEN 2 ELSE Bit(InSegStrict(SecAtO(obj, k), SegAt(obj, j)))])])]
